@@ -134,6 +134,9 @@ def json_of(a):
     return {"winner": a[1], "loser": a[2], "assertion_type": "IRV_ELIMINATION", "already_eliminated": list(a[3])}
 
 
+CURRENT_RES = [None]
+
+
 def label_of(a):
     if a[0] == "NEB":
         return a[1] + " v " + a[2]
@@ -153,8 +156,22 @@ def build_assorters(A, con, candidates, asrts):
             seen.add(lab)
         made = A.Assertion.make_assertions_from_json(contest=con, candidates=list(candidates),
                                                      json_assertions=[json_of(asrts[i]) for i in batch])
+        if len(made) != len(batch) and CURRENT_RES[0] is not None:
+            # every assertion of the generator must get an assorter: an entry lost to a colliding dict key is an
+            # assertion the audit never tests (on the unchanged tree the labels of a batch are pairwise different)
+            CURRENT_RES[0].oracle_violations.append({
+                "what": "make_assertions_from_json returned fewer assertions than the pairwise different JSON assertions it was given",
+                "input": {"contest": con.id, "candidates": list(candidates), "json_assertions": [json_of(asrts[i]) for i in batch]},
+                "observed": {"returned_labels": sorted(map(str, made)), "given": len(batch)},
+                "signature": "C14:assertion-lost"})
         for i in batch:
-            out[i] = made[label_of(asrts[i])].assorter
+            lab = label_of(asrts[i])
+            if len(made) == len(batch) and lab in made:
+                out[i] = made[lab].assorter
+            else:       # the label format is not the harness's business: build this one alone and take the only entry
+                one = A.Assertion.make_assertions_from_json(contest=con, candidates=list(candidates),
+                                                            json_assertions=[json_of(asrts[i])])
+                out[i] = next(iter(one.values())).assorter
         todo = rest
     return out
 
@@ -728,6 +745,7 @@ def tally_cases(ctx, res, A, RU, RR, ids):
 # ---------------------------------------------------------------- entry point
 def run(ctx, res):
     A, RU, RR = impl()
+    CURRENT_RES[0] = res
     # regenerated tie: whole-function skeletons of the audit-side and generator-side ranked-vote predicates; C14's
     # equality re-proved between the two regenerated readings (coq/gen/GenProofs_irv_skeletons.v)
     genarith.regenerate(ctx.pid, "irv_skeletons", res)
